@@ -2009,3 +2009,37 @@ pub(crate) fn post_sync_process(
         debug!("Receive {} from {}, {}", item_name, peer, status);
     }
 }
+
+/// verification hook (off unless built with `--cfg ckb_verif`): read-only views of crate-private
+/// bookkeeping fields and the one knob the crate's own tests set directly (`protect_num`)
+#[cfg(ckb_verif)]
+impl InflightBlocks {
+    /// set `protect_num` (the crate's tests assign the field)
+    pub fn verif_set_protect_num(&mut self, n: usize) {
+        self.protect_num = n;
+    }
+    /// the slow-block marks: block -> time it was marked
+    pub fn verif_trace_number(&self) -> Vec<(BlockNumberAndHash, u64)> {
+        self.trace_number
+            .iter()
+            .map(|(k, v)| (k.clone(), *v))
+            .collect()
+    }
+    /// `restart_number`
+    pub fn verif_restart_number(&self) -> BlockNumber {
+        self.restart_number
+    }
+    /// task count of a tracked peer
+    pub fn verif_task_count(&self, peer: PeerIndex) -> Option<usize> {
+        self.download_schedulers
+            .get(&peer)
+            .map(DownloadScheduler::task_count)
+    }
+    /// every in-flight entry: block -> (peer, request time)
+    pub fn verif_states(&self) -> Vec<(BlockNumberAndHash, PeerIndex, u64)> {
+        self.inflight_states
+            .iter()
+            .map(|(k, v)| (k.clone(), v.peer, v.timestamp))
+            .collect()
+    }
+}
